@@ -91,6 +91,17 @@ def oracle(case, rec):
         raise Violation('C17/kdt_match/raises/%s/second-request' % type(e).__name__, repr(e))
     if not (np.array_equal(np.asarray(held[0]), keep[0]) and np.array_equal(np.asarray(held[1]), keep[1])):
         raise Violation('C17/kdt_match/earlier-result-changed-by-a-later-request', '')
+    # the caller offsets the returned indices in place (into a concatenated table, say) and repeats the identical request
+    for h in held:
+        if isinstance(h, np.ndarray) and h.flags.writeable and h.size:
+            h += 1000
+    try:
+        again = emd.cycles.kdt_match(xa, ya, K=K, distance_upper_bound=bound)
+    except Exception as e:
+        raise Violation('C17/kdt_match/raises/%s/repeat' % type(e).__name__, repr(e))
+    if not (np.array_equal(np.asarray(again[0]), keep[0]) and np.array_equal(np.asarray(again[1]), keep[1])):
+        raise Violation('C17/kdt_match/repeated-request-differs-after-the-caller-edited-the-earlier-result', '')
+    xi, yi = keep
     xi = np.asarray(xi)
     yi = np.asarray(yi)
     desc = 'nx=%d ny=%d d=%d K=%d bound=%r xi=%r yi=%r' % (x.shape[0], y.shape[0], x.shape[1], K, bound, xi.tolist()[:20], yi.tolist()[:20])
